@@ -655,6 +655,11 @@ class Merger:
             self.logger.debug(
                 "Merger::_insert_dict:  Merging a dict into a dict.")
 
+            if not isinstance(lhs, CommentedMap):
+                raise MergeException(
+                    "Impossible to add Hash data to non-Hash destination.",
+                    insert_at)
+
             merge_mode = self.config.hash_merge_mode(
                 NodeCoords(rhs, None, None))
             if merge_mode is HashMergeOpts.LEFT:
